@@ -204,9 +204,67 @@ func (fr *Frame) closureOf(v ssa.Value) *closureInfo {
 	return nil
 }
 
+// callsiteObligations emits the callsite clauses of the top-level contract (and package-level ones) for a call of callee.
+func (fr *Frame) callsiteObligations(full string, sig *types.Signature, recvT types.Type, args []Term, ins ssa.Instruction) {
+	vc := fr.vc
+	var reqs []*CallsiteReq
+	if vc.top != nil && vc.top.contract != nil {
+		for _, cr := range vc.top.contract.Callsites {
+			if cr.Callee == full {
+				reqs = append(reqs, cr)
+			}
+		}
+	}
+	for _, cr := range vc.sess.specs.Callsites {
+		if cr.Callee == full && fr.fn.Pkg != nil && cr.Pkg == fr.fn.Pkg.Pkg.Path() {
+			reqs = append(reqs, cr)
+		}
+	}
+	for _, cr := range reqs {
+		env := fr.specEnv(fr.cur, fr.oldState)
+		env.atBlock, env.atIdx = fr.curBlock, fr.curIdx
+		// entry values of the enclosing function's parameters are available as <name>0
+		for _, prm := range fr.fn.Params {
+			if t, ok := fr.vals[prm]; ok {
+				env.vars[prm.Name()+"0"] = Val{T: t, Typ: prm.Type()}
+			}
+		}
+		i := 0
+		if recvT != nil {
+			i = 1
+		}
+		np := 0
+		for k, pn := range cr.Params {
+			if recvT != nil && k == 0 && len(cr.Params) == sig.Params().Len()+1 {
+				env.vars[pn] = Val{T: args[0], Typ: recvT}
+				np = 1
+				continue
+			}
+			idx := k - np
+			if i+idx < len(args) && idx < sig.Params().Len() {
+				env.vars[pn] = Val{T: args[i+idx], Typ: sig.Params().At(idx).Type()}
+			}
+		}
+		t, err := env.evalBool(cr.Req.E)
+		if err != nil {
+			vc.sess.fatalf("callsite clause for %s in %s: %v", full, fr.fn.Name(), err)
+		}
+		line := vc.sess.pos(fr.pos(ins)).Line
+		vc.coveredCallsites[fmt.Sprintf("%s@%s:%d", full, fr.fn.Name(), line)] = true
+		vc.oblige(fmt.Sprintf("callsite:%s@%s:%d", full, fr.fn.Name(), line), fr.curReach, t, "call-site requirement for "+full+": "+cr.Req.Text, fr.pos(ins))
+	}
+}
+
 func (fr *Frame) callStatic(v ssa.Value, fn *ssa.Function, args []Term, cc *ssa.CallCommon, ins ssa.Instruction, hint string) {
 	vc := fr.vc
 	sig := fn.Signature
+	{
+		var rt types.Type
+		if sig.Recv() != nil {
+			rt = sig.Recv().Type()
+		}
+		fr.callsiteObligations(fullName(fn), sig, rt, args, ins)
+	}
 	if c := vc.sess.contractFor(fn); c != nil && c.Inline && fn.Blocks == nil {
 		// the body that should be inlined is not loaded: nothing may be assumed
 		fr.unknownCall(v, sig, fullName(fn)+" (inline contract but body not loaded)", cc, hint)
